@@ -99,7 +99,62 @@ def special_fonts(base_fonts):
     return out
 
 
-def _stream(ctx, fc, tag, seed, count, gen, known_ids, stats, corr, fonts_file=None, options=None):
+def mk_glyph(name):
+    return {"name": name, "file": None, "advance": ["0x0.0p+0", "0x0.0p+0"], "unicodes": [], "note": None, "image": None,
+            "guidelines": [], "anchors": [], "contours": [], "components": [], "lib": {}}
+
+
+# names that map to the same directory / file stem: illegal characters, case variants (upper case X
+# is written X_), trailing period, reserved words (glyph files only), names beyond 255 bytes
+LAYER_COLLISIONS = [["Sketch/1", "Sketch:1", "Sketch*1"], ["A", "a_"], ["x.", "x_", "x "], ["Bg?", "Bg|", 'Bg"', "Bg<", "Bg>"],
+                    ["L" * 300, "Short"], ["Foo.Bar", "FOO.BAR"], ["con", "_con"]]
+# class long_name_clash (F1 of C07): two names whose file names are clipped to the same 255-byte stem get a
+# clash counter appended AFTER clipping: a 257-byte file name, which the file system refuses
+LONG_LAYER_CLASH = ["L" * 300, "L" * 299 + "M", "L" * 298 + "MM"]
+LONG_GLYPH_CLASH = ["g" * 300, "g" * 299 + "h"]
+GLYPH_COLLISIONS = [["a/b", "a:b", "a*b"], ["A", "a_"], ["con", "_con"], ["nul.alt", "_nul.alt"], ["x.", "x_"],
+                    ["g" * 300, "gshort"], ["T_h", "t_H_"], ["AE", "Ae_", "aE_"]]
+
+
+def long_name_clash(font, err):
+    """class predicate: the save failed with 'file name too long' and two glyph names of one layer
+    (or two layer names) are longer than 240 bytes and agree on their first 240 bytes"""
+    if "File name too long" not in err and "InvalidFilename" not in err:
+        return False
+
+    def clash(names):
+        long_ = [n for n in names if len(n.encode("utf-8")) > 240]
+        return any(a != b and a.encode("utf-8")[:240] == b.encode("utf-8")[:240] for a in long_ for b in long_)
+    return clash([l["name"] for l in font["layers"]]) or any(clash([g["name"] for g in l["glyphs"]]) for l in font["layers"])
+
+
+def history_fonts(base_fonts, rng):
+    """fonts whose layer / glyph names collide in their directory / file stems, to be reached through
+    varied API histories (harness --varied)"""
+    out = []
+    for i, f0 in enumerate(base_fonts):
+        f = copy.deepcopy(f0)
+        have = {l["name"] for l in f["layers"]}
+        for fam in rng.sample(LAYER_COLLISIONS, rng.randint(1, 2)):
+            for n in rng.sample(fam, rng.randint(2, len(fam))):
+                if n not in have and n != "public.default":
+                    have.add(n)
+                    f["layers"].append({"name": n, "dir": None, "color": None, "lib": {},
+                                        "glyphs": [mk_glyph("a")] if rng.random() < 0.5 else []})
+        for l in f["layers"]:
+            if rng.random() < 0.6:
+                gh = {g["name"] for g in l["glyphs"]}
+                for fam in rng.sample(GLYPH_COLLISIONS, rng.randint(1, 2)):
+                    for n in rng.sample(fam, rng.randint(2, len(fam))):
+                        if n not in gh:
+                            gh.add(n)
+                            l["glyphs"].append(mk_glyph(n))
+                l["glyphs"].sort(key=lambda g: g["name"])
+        out.append(f)
+    return out
+
+
+def _stream(ctx, fc, tag, seed, count, gen, known_ids, stats, corr, fonts_file=None, options=None, varied=False):
     from driver import sh
     a_dir = os.path.join(ctx.scratch, "a_" + tag)
     cmd = [ctx.harness, "c01", "--out", a_dir, "--seed", str(seed), "--count", str(count), "--two-opts"]
@@ -107,6 +162,8 @@ def _stream(ctx, fc, tag, seed, count, gen, known_ids, stats, corr, fonts_file=N
         cmd += ["--gen", ",".join(gen)]
     if fonts_file:
         cmd += ["--fonts", fonts_file]
+    if varied:
+        cmd += ["--varied"]
     if options:
         for flag, oo in zip(("--options", "--options2"), options):
             if oo:
@@ -129,13 +186,18 @@ def _stream(ctx, fc, tag, seed, count, gen, known_ids, stats, corr, fonts_file=N
         for oo in (opts, opts2):
             if oo:
                 stats["options"].add(("default",) if oo["default"] else (oo["indent_char"], oo["indent_width"], oo["single_quote"]))
-        base = {"stream": tag, "seed": seed, "case": case, "font": font, "options": opts, "options2": opts2}
+        base = {"stream": tag, "seed": seed, "case": case, "font": font, "options": opts, "options2": opts2, "varied": varied}
         errs = [e for e in ("build_error.txt", "save_error.txt", "load_error.txt", "save2_error.txt", "load2_error.txt")
                 if os.path.exists(os.path.join(cd, e))]
+        if errs and errs[0].startswith("save") and long_name_clash(font, open(os.path.join(cd, errs[0])).read()):
+            stats["class_hits"]["long_name_clash"] += 1
+            if "long_name_clash" in known_ids:
+                ctx.known_hits["long_name_clash"] = ctx.known_hits.get("long_name_clash", 0) + 1
+                continue
         if errs:
             v = dict(base)
             v.update({"error": errs[0] + ": " + open(os.path.join(cd, errs[0])).read()[:400],
-                      "demand": "a valid font is saved and loaded back, for every write option"})
+                      "demand": "a valid font built through the API is saved and loaded back, for every write option"})
             ctx.violations.append(v)
             continue
         loaded = _load(os.path.join(cd, "loaded.json"))
@@ -226,6 +288,32 @@ def run(ctx, known, built):
         json.dump(sp, open(ff, "w"))
         _stream(ctx, fc, "special", ctx.seed, len(sp), [], known_ids, stats, corr, fonts_file=ff)
     ctx.note("special cases done")
+    # the same abstract fonts reached through varied API histories (temporary names + rename_layer /
+    # rename_glyph, decoys, remove and re-create), with names that collide in their directory / file stems
+    import random
+    hr = random.Random(ctx.seed * 31 + 7)
+    n_hist = 1500 if thorough else 70
+    hf = history_fonts(main_fonts[:n_hist], hr) + main_fonts[n_hist:n_hist + n_hist // 2]
+    if hf:
+        ff = os.path.join(ctx.scratch, "history.json")
+        json.dump(hf, open(ff, "w"))
+        _stream(ctx, fc, "history", ctx.seed, len(hf), [], known_ids, stats, corr, fonts_file=ff, varied=True)
+    # class long_name_clash, separately
+    lf = []
+    for i, f0 in enumerate(main_fonts[:6 if not thorough else 60]):
+        f = copy.deepcopy(f0)
+        if i % 2 == 0:
+            f["layers"][0]["glyphs"] = sorted(f["layers"][0]["glyphs"] + [mk_glyph(n) for n in LONG_GLYPH_CLASH
+                                               if n not in {g["name"] for g in f["layers"][0]["glyphs"]}], key=lambda g: g["name"])
+        else:
+            f["layers"] += [{"name": n, "dir": None, "color": None, "lib": {}, "glyphs": []} for n in LONG_LAYER_CLASH
+                            if n not in {l["name"] for l in f["layers"]}]
+        lf.append(f)
+    if lf:
+        ff = os.path.join(ctx.scratch, "longnames.json")
+        json.dump(lf, open(ff, "w"))
+        _stream(ctx, fc, "long_name_clash", ctx.seed, len(lf), [], known_ids, stats, None, fonts_file=ff, varied=True)
+    ctx.note("API histories done")
     for cid, sw in sorted(KNOWN_GEN.items()):
         _stream(ctx, fc, "g_" + sw, ctx.seed + 17, n_class, [sw] + MAIN_GEN, known_ids, stats, None)
     ctx.note("class streams done")
@@ -257,7 +345,8 @@ def run(ctx, known, built):
                 "independently drawn options and loaded back; non-trivial = all of them.",
         "exhaustive": False,
         "traces_validated_against_impl": sum(len(v) for v in corr.values()),
-        "input_distribution": {"main_stream_fonts": n_main, "special_cases": len(sp), "per_known_class": n_class,
+        "input_distribution": {"main_stream_fonts": n_main, "special_cases": len(sp), "api_history_fonts": len(hf),
+                               "per_known_class": n_class,
                                "distinct_write_options": len(stats["options"]),
                                "class_hits": dict(stats["class_hits"]), "observations": dict(stats["observations"]),
                                "stale_witnesses": stale},
@@ -280,7 +369,7 @@ def replay(ctx, path):
     stats = {"cases": 0, "roundtrips": 0, "options": set(), "class_hits": collections.Counter(),
              "observations": collections.Counter()}
     _stream(ctx, fc, "replay", d.get("seed", 1), 1, [], set(), stats, None, fonts_file=ff,
-            options=(v.get("options"), v.get("options2")))
+            options=(v.get("options"), v.get("options2")), varied=bool(v.get("varied")))
     print("violations on replay:", len(ctx.violations))
     for x in ctx.violations[:3]:
         x = dict(x)
